@@ -43,4 +43,202 @@ theorem cds_twins_agree (x : CdsD) (letters : List Char) (ch : Model.Chunk.Chunk
   cases hk
   exact ⟨rfl, rfl, rfl, rfl, rfl, rfl⟩
 
+/-! ### no constructor raises LocationOverlapException: the transcript never drops its CDS -/
+
+/-- the computation does not raise LocationOverlapException -/
+def NoOv {α : Type} (x : R α) : Prop := x ≠ .error .LocationOverlap
+
+theorem NoOv.bind {α β : Type} {x : R α} {f : α → R β} (hx : NoOv x) (hf : ∀ a, NoOv (f a)) : NoOv (x >>= f) := by
+  cases x with
+  | error e =>
+    intro h
+    have : (Except.error e >>= f : R β) = Except.error e := rfl
+    rw [this] at h
+    apply hx
+    cases h
+    rfl
+  | ok a => exact hf a
+theorem NoOv.pure {α : Type} (a : α) : NoOv (pure a : R α) := by intro h; cases h
+theorem NoOv.ok {α : Type} (a : α) : NoOv (.ok a : R α) := by intro h; cases h
+theorem NoOv.throw {α : Type} (e : Err) (he : e ≠ .LocationOverlap) : NoOv (throw e : R α) := by
+  intro h; apply he; cases h; rfl
+theorem NoOv.err {α : Type} (e : Err) (he : e ≠ .LocationOverlap) : NoOv (.error e : R α) := by
+  intro h; apply he; cases h; rfl
+theorem NoOv.ite {α : Type} (c : Prop) [Decidable c] {x y : R α} (hx : NoOv x) (hy : NoOv y) : NoOv (if c then x else y) := by
+  split <;> assumption
+
+theorem noOv_mkSingle (s e : Int) (st : Strand) : NoOv (mkSingle s e st) := by
+  unfold mkSingle; exact NoOv.ite _ (NoOv.pure _) (NoOv.throw _ (by decide))
+
+theorem noOv_mkCompoundLoc (bs : List Blk) (st : Strand) : NoOv (mkCompoundLoc bs st) := by
+  unfold mkCompoundLoc
+  split
+  · exact NoOv.throw _ (by decide)
+  · simp only
+    split
+    · exact NoOv.pure _
+    · exact NoOv.throw _ (by decide)
+
+theorem noOv_mkCompound (bs : List Blk) (st : Strand) : NoOv (mkCompound bs st) := by
+  unfold mkCompound; exact NoOv.bind (noOv_mkCompoundLoc bs st) (fun _ => NoOv.pure _)
+
+theorem noOv_chunkDown (l : Location) (w : Blk) (wst : Strand) : NoOv (chunkDown l w wst) := by
+  unfold chunkDown
+  split
+  · exact NoOv.throw _ (by decide)
+  · split
+    · exact NoOv.pure _
+    · rename_i r hne
+      intro h
+      exact hne h
+
+theorem noOv_locate (l : Location) (p : Par) : NoOv (locate l p) := by
+  cases p with
+  | whole letters => unfold locate; exact NoOv.ite _ (NoOv.throw _ (by decide)) (NoOv.pure _)
+  | chunk c => exact noOv_chunkDown l c.w c.wst
+
+theorem noOv_initializeLocation (bs : List Blk) (st : Strand) (p : Par) : NoOv (initializeLocation bs st p) := by
+  unfold initializeLocation
+  refine NoOv.bind ?_ (fun l => noOv_locate l p)
+  unfold initialLocation
+  split
+  · exact noOv_mkSingle _ _ _
+  · exact noOv_mkCompound _ _
+
+theorem noOv_liftPy {α : Type} (x : GenP.PyR α) : NoOv (liftPy x) := by
+  cases x with
+  | ok a => exact NoOv.ok a
+  | error e => cases e <;> exact NoOv.err _ (by decide)
+
+theorem noOv_mapM {α β : Type} (f : α → R β) (hf : ∀ a, NoOv (f a)) : ∀ (xs : List α), NoOv (xs.mapM f)
+  | [] => by rw [List.mapM_nil]; exact NoOv.pure _
+  | x :: xs => by
+    rw [List.mapM_cons]
+    exact NoOv.bind (hf x) (fun _ => NoOv.bind (noOv_mapM f hf xs) (fun _ => NoOv.pure _))
+
+theorem noOv_framesOf (vals : List Nat) : NoOv (framesOf vals) := by
+  unfold framesOf; exact noOv_mapM _ (fun _ => noOv_liftPy _) vals
+
+theorem noOv_mkCDS (exons : List Blk) (st : Strand) (fs : List CDSFrame) (seq : Option (List Char)) :
+    NoOv (mkCDS exons st (.frames fs) seq) := by
+  unfold NoOv mkCDS
+  have h1 := noOv_mkCompoundLoc exons st
+  unfold NoOv at h1
+  simp only [bind, Except.bind, pure, Except.pure, throw, throwThe, MonadExceptOf.throw]
+  repeat' split
+  all_goals (first | (intro h; cases h; done) | (intro h; apply h1; simp_all) | simp_all)
+
+
+theorem noOv_mkCdsNode (x : CdsD) (p : Par) (depth : Nat) : NoOv (mkCdsNode x p depth) := by
+  cases p with
+  | whole letters =>
+    unfold mkCdsNode mkWholeCDS
+    refine NoOv.bind (NoOv.bind (noOv_initializeLocation _ _ _) (fun _ => NoOv.bind (noOv_framesOf _) (fun _ =>
+      NoOv.bind (noOv_mkCDS _ _ _ _) (fun _ => NoOv.pure _)))) (fun _ => ?_)
+    exact NoOv.bind (noOv_initializeLocation _ _ _) (fun _ => NoOv.pure _)
+  | chunk ch =>
+    unfold mkCdsNode mkChunkCDS
+    exact NoOv.bind (NoOv.bind (noOv_initializeLocation _ _ _) (fun _ => NoOv.bind (noOv_framesOf _) (fun _ =>
+      NoOv.bind (noOv_mkCDS _ _ _ _) (fun _ => NoOv.pure _)))) (fun _ => NoOv.pure _)
+
+/-! ### the chromosome-level view of a node -/
+
+/-- what the chromosome-level accessors and `to_dict()` show of a node, plus the digest arguments of the classes
+    whose digest does not read the chunk-relative location (feature, transcript, CDS) -/
+def nodeView (n : Node) : Char × Nat × Nat × Nat × Location × List Tok × Option (List Tok) :=
+  (n.tag, n.depth, n.start, n.«end», n.chrom, n.dictKey,
+   if n.tag = 'G' ∨ n.tag = 'Q' ∨ n.tag = 'A' then none else some n.guidKey)
+
+/-- **C07-T1 (FeatureInterval)** -/
+theorem feat_twins_agree (f : FeatD) (letters : List Char) (ch : Model.Chunk.Chunk) (depth : Nat) (a b : Node)
+    (ha : mkFeat f (.whole letters) depth = .ok a) (hb : mkFeat f (.chunk ch) depth = .ok b) :
+    nodeView a = nodeView b := by
+  unfold mkFeat at ha hb
+  obtain ⟨_, _, ha⟩ := bind_ok_inv ha
+  obtain ⟨se, hse, ha⟩ := bind_ok_inv ha
+  obtain ⟨c, hc, ha⟩ := bind_ok_inv ha
+  obtain ⟨_, _, hb⟩ := bind_ok_inv hb
+  obtain ⟨se', hse', hb⟩ := bind_ok_inv hb
+  obtain ⟨c', hc', hb⟩ := bind_ok_inv hb
+  rw [hse] at hse'; cases hse'
+  rw [hc] at hc'; cases hc'
+  cases ha; cases hb
+  rfl
+
+/-- **C07-T1 (CDSInterval)** -/
+theorem cdsNode_twins_agree (x : CdsD) (letters : List Char) (ch : Model.Chunk.Chunk) (depth : Nat) (a b : Node)
+    (ha : mkCdsNode x (.whole letters) depth = .ok a) (hb : mkCdsNode x (.chunk ch) depth = .ok b) :
+    nodeView a = nodeView b := by
+  unfold mkCdsNode at ha hb
+  obtain ⟨cw, hcw, ha⟩ := bind_ok_inv ha
+  obtain ⟨_, _, ha⟩ := bind_ok_inv ha
+  obtain ⟨k, hk, hb⟩ := bind_ok_inv hb
+  obtain ⟨h1, h2, h3, h4, _, _⟩ := cds_twins_agree x letters ch cw k hcw hk
+  cases ha; cases hb
+  simp [nodeView, cdsNode, h1, h2, h3, h4]
+
+/-- the CDS part of the transcript constructor: non-coding, or the CDS node — never "dropped" -/
+theorem txCds_cases (t : TxD) (p : Par) (depth : Nat) (r : Option (Option Node)) (h : txCds t p depth = .ok r) :
+    (t.cds.isEmpty = true ∧ r = none) ∨
+    (t.cds.isEmpty = false ∧ ∃ n, mkCdsNode t.cdsD p (depth + 1) = .ok n ∧ r = some (some n)) := by
+  unfold txCds at h
+  cases hE : t.cds.isEmpty with
+  | true => rw [hE, if_pos rfl] at h; cases h; exact Or.inl ⟨rfl, rfl⟩
+  | false =>
+    rw [hE, if_neg (by simp)] at h
+    obtain ⟨⟨cs, ce⟩, _, h⟩ := bind_ok_inv h
+    obtain ⟨⟨es, ee⟩, _, h⟩ := bind_ok_inv h
+    dsimp only at h
+    split at h
+    · simp [throw, throwThe, MonadExceptOf.throw, bind, Except.bind] at h
+    split at h
+    · simp [throw, throwThe, MonadExceptOf.throw, bind, Except.bind] at h
+    have hno := noOv_mkCdsNode t.cdsD p (depth + 1)
+    cases hm : mkCdsNode t.cdsD p (depth + 1) with
+    | error e =>
+      rw [hm] at h hno
+      cases e <;> first | (exact absurd rfl hno) | (simp [throw, throwThe, MonadExceptOf.throw] at h)
+    | ok n =>
+      rw [hm] at h
+      cases h
+      exact Or.inr ⟨rfl, n, rfl, rfl⟩
+
+/-- **C07-T1 (TranscriptInterval)**: the node of the transcript and, when coding, of its CDS -/
+theorem tx_twins_agree (t : TxD) (letters : List Char) (ch : Model.Chunk.Chunk) (depth : Nat) (as bs : List Node)
+    (ha : mkTx t (.whole letters) depth = .ok as) (hb : mkTx t (.chunk ch) depth = .ok bs) :
+    as.map nodeView = bs.map nodeView ∧ (∀ n ∈ bs, n.tag ≠ 'X') := by
+  unfold mkTx at ha hb
+  obtain ⟨_, _, ha⟩ := bind_ok_inv ha
+  obtain ⟨ca, hca, ha⟩ := bind_ok_inv ha
+  obtain ⟨sea, hsea, ha⟩ := bind_ok_inv ha
+  obtain ⟨cha, hcha, ha⟩ := bind_ok_inv ha
+  obtain ⟨fra, hfra, ha⟩ := bind_ok_inv ha
+  obtain ⟨_, _, hb⟩ := bind_ok_inv hb
+  obtain ⟨cb, hcb, hb⟩ := bind_ok_inv hb
+  obtain ⟨seb, hseb, hb⟩ := bind_ok_inv hb
+  obtain ⟨chb, hchb, hb⟩ := bind_ok_inv hb
+  obtain ⟨frb, hfrb, hb⟩ := bind_ok_inv hb
+  rw [hsea] at hseb; cases hseb
+  rw [hcha] at hchb; cases hchb
+  rw [hfra] at hfrb; cases hfrb
+  rcases txCds_cases t _ depth ca hca with ⟨hE, rfl⟩ | ⟨hE, na, hna, rfl⟩
+  · rcases txCds_cases t _ depth cb hcb with ⟨_, rfl⟩ | ⟨hE', _⟩
+    · cases ha; cases hb
+      refine ⟨rfl, ?_⟩
+      intro n hn; simp at hn; subst hn; simp
+    · rw [hE] at hE'; cases hE'
+  · rcases txCds_cases t _ depth cb hcb with ⟨hE', _⟩ | ⟨_, nb, hnb, rfl⟩
+    · rw [hE] at hE'; cases hE'
+    · have hv := cdsNode_twins_agree t.cdsD letters ch (depth + 1) na nb hna hnb
+      cases ha; cases hb
+      refine ⟨by simp [nodeView] at hv ⊢; exact hv, ?_⟩
+      intro n hn
+      simp at hn
+      rcases hn with rfl | rfl
+      · simp
+      · unfold mkCdsNode mkChunkCDS at hnb
+        obtain ⟨k, _, hnb⟩ := bind_ok_inv hnb
+        cases hnb
+        simp [cdsNode]
+
 end BioCantor.Proofs.Chunk
